@@ -171,7 +171,7 @@ def canon(v):
         except Exception as e:
             return "EXC:" + type(e).__name__
     if isinstance(v, enum.Enum):
-        return int(v)
+        return int(v) if isinstance(v, int) else ("enum", str(v.value))
     if isinstance(v, int):
         return int(v)
     if isinstance(v, float):
@@ -201,6 +201,16 @@ def same(a, b) -> bool:
     except Exception:
         pass
     return canon(a) == canon(b)
+
+
+def unforceable(v) -> bool:
+    """a lazy window (TextureEntry) whose deferred parse raises"""
+    if _PROXY and isinstance(v, _PROXY):
+        try:
+            v.__wrapped__
+        except Exception:
+            return True
+    return False
 
 
 def py_equal(a, b):
@@ -480,40 +490,151 @@ class Gen:
         return None
 
 
-def wire_payload(flags: int, pcode=9, state=0, sections=None) -> bytes:
-    """an independent wire-level encoder for hand-made well-formed payloads (empty sections etc.)"""
+def wire_segments(flags: int, pcode=9, state=0, sections=None):
+    """an independent wire-level encoder for hand-made well-formed payloads: [(section name, bytes)] in wire order"""
     s = sections or {}
-    out = struct.pack("<16sIBBIBB3f3f3fI16s", bytes(range(1, 17)), 7, pcode, state, 5, 3, 0, 1.0, 2.0, 3.0, 4.0, 5.0, 6.0,
-                      0.0, 0.0, 0.0, flags, bytes(16))
+    hdr = struct.pack("<16sIBBIBB3f3f3fI16s", bytes(range(1, 17)), 7, pcode, state, 5, 3, 0, 1.0, 2.0, 3.0, 4.0, 5.0, 6.0,
+                      0.0, 0.0, 0.0, flags, s.get("owner", bytes(16)))
+    out = [("Header", hdr)]
     if flags & 128:
-        out += struct.pack("<3f", 0.0, 0.0, 1.0)
+        out.append(("AngularVelocity", struct.pack("<3f", 0.0, 0.0, 1.0)))
     if flags & 32:
-        out += struct.pack("<I", s.get("parent", 77))
+        out.append(("ParentID", struct.pack("<I", s.get("parent", 77))))
     if flags & 2:
-        out += bytes([s.get("tree", 3)])
+        out.append(("TreeSpecies", bytes([s.get("tree", 3)])))
     if flags & 1:
         sp = s.get("scratch", b"")
-        out += struct.pack("<I", len(sp)) + sp
+        out.append(("ScratchPad", struct.pack("<I", len(sp)) + sp))
     if flags & 4:
-        out += s.get("text", b"") + b"\x00" + s.get("color", b"\x01\x02\x03\x04")
+        out.append(("Text", s.get("text", b"") + b"\x00"))
+        out.append(("TextColor", s.get("color", b"\x01\x02\x03\x04")))
     if flags & 512:
-        out += s.get("media", b"") + b"\x00"
+        out.append(("MediaURL", s.get("media", b"") + b"\x00"))
     if flags & 8:
-        out += s["psblock"]
-    out += s.get("extra", b"\x00")
+        out.append(("PSBlock", s["psblock"]))
+    out.append(("ExtraParams", s.get("extra", b"\x00")))
     if flags & 16:
-        out += struct.pack("<16sfBf", bytes(range(16)), 1.0, 1, 20.0)
+        out.append(("Sound", struct.pack("<16sfBf", bytes(range(16)), 1.0, 1, 20.0)))
     if flags & 256:
-        out += s.get("nv", b"") + b"\x00"
-    out += s.get("prim", bytes(range(1, 24)))
+        out.append(("NameValue", s.get("nv", b"") + b"\x00"))
+    out.append(("PrimParams", s.get("prim", bytes(range(1, 24)))))
     te = s.get("te", b"")
-    out += struct.pack("<I", len(te)) + te
+    out.append(("TextureEntry", struct.pack("<I", len(te)) + te))
     if flags & 64:
         ta = s.get("ta", bytes([1, 0, 1, 1]) + struct.pack("<3f", 0.0, 1.0, 2.0))
-        out += struct.pack("<I", len(ta)) + ta
+        out.append(("TextureAnim", struct.pack("<I", len(ta)) + ta))
     if flags & 1024:
-        out += s.get("psnew", b"")
+        out.append(("PSBlockNew", s.get("psnew", b"")))
     return out
+
+
+def wire_payload(flags: int, pcode=9, state=0, sections=None) -> bytes:
+    return b"".join(seg for _, seg in wire_segments(flags, pcode, state, sections))
+
+
+# --------------------------------------------------------------------------
+# byte-level boundary sweep inside every section of hand-built payloads
+
+SWEEP_VALUES = (0x00, 0x01, 0x7F, 0x80, 0xFB, 0xFC, 0xFD, 0xFE, 0xFF)
+_PSYS = struct.Struct("<IIBHHBBHHHHB3H3H16s16s")
+_PDATA = struct.Struct("<IH4s4sBBBB")
+
+
+def _psys(max_age=0x0A00, inner=0x10, vel_x=0x8000) -> bytes:
+    return _PSYS.pack(0x11223344, 1, 2, max_age, 0x0100, inner, 0x10, 0x0080, 0x0100, 0x0100, 0x0200, 4,
+                      vel_x, 0x8000, 0x8000, 0x8000, 0x8000, 0x7F80, b"\x11" * 16, b"\x22" * 16)
+
+
+def _pdata(flags=0x101, glow=b"", blend=b"") -> bytes:
+    return _PDATA.pack(flags, 0x0A00, b"\xff\x00\x00\xff", b"\x00\x00\xff\x00", 0x20, 0x20, 0x08, 0x08) + glow + blend
+
+
+def sweep_bases():
+    """deterministic (seed independent) rich payloads, as segment lists; every optional section occurs in one of them"""
+    def ep(kind, body):
+        return struct.pack("<HI", kind, len(body)) + body
+    f = struct.pack
+    extra = bytes([8]) + ep(0x10, bytes([0x42, 0x81, 10, 20]) + f("<3f", 0.5, -1.0, 2.0)) \
+        + ep(0x20, b"\x10\x20\x30\x40" + f("<3f", 10.0, 0.5, 0.75)) \
+        + ep(0x30, bytes(range(0x30, 0x40)) + bytes([0x45])) \
+        + ep(0x40, bytes(range(0x40, 0x50)) + f("<3f", 1.0, 2.0, 0.25)) \
+        + ep(0x60, bytes(range(0x60, 0x70)) + bytes([0x05])) \
+        + ep(0x70, f("<I", 1)) \
+        + ep(0x80, bytes([2]) + bytes([0]) + bytes(range(0x80, 0x90)) + bytes([3]) + bytes(range(0x90, 0xA0))) \
+        + ep(0x90, f("<2f", 0.5, 64.0) + bytes([3]))
+    te = bytes.fromhex("8955674724cb43ed920b47caed15465f") + bytes.fromhex("00" "00000000" "00" "0000803f" "00" "0000803f" "00"
+                                                                        "0000" "00" "0000" "00" "0000" "00" "00" "00" "00" "00" "00" "00")
+    blob = corpus_cases()[0][1] if corpus_cases() else b""
+    i = blob.find(bytes.fromhex("3f000000"))
+    if i > 0:
+        te = blob[i + 4:i + 4 + 63]
+    ta = bytes([0x33, 0xFF, 2, 2]) + f("<3f", 0.0, 6.25, 0.5)
+    pd_new = _pdata(0x30101, glow=b"\x40\x80", blend=b"\x07\x09")
+    ps_new = f("<i", _PSYS.size) + _psys() + f("<i", len(pd_new)) + pd_new
+    common = {"scratch": bytes(range(0xA0, 0xA8)), "text": "Hello \u00e9".encode(), "color": b"\xff\x80\x00\x7f",
+              "media": b"http://x/y", "psblock": _psys() + _pdata(), "extra": extra,
+              "nv": b"AttachItemID STRING RW SV abc\nfoo U32 R S 5", "te": te, "ta": ta,
+              "owner": bytes(range(0x51, 0x61))}
+    return {
+        "all": wire_segments(2047, 9, 0x2f, dict(common, psnew=ps_new)),
+        "psnew86": wire_segments(1024 | 128, 47, 0x14, {"psnew": _psys(0x0100, 0x20, 0x8100) + _pdata(), "te": te}),
+        "psnew-min": wire_segments(1024 | 64, 95, 7, {"psnew": f("<i", _PSYS.size) + _psys() + f("<i", _PDATA.size) + _pdata(), "ta": ta}),
+    }
+
+
+def sweep_cases(ctx):
+    """(kind, payload, ("sweep", base, offset, value)).  Every byte position of the particle blocks with each boundary
+    value; other sections strided in the quick tier (all positions in thorough); all-ones / all-zero section contents."""
+    stride = ctx.pick(4, 1)
+    for bname, segs in sweep_bases().items():
+        payload = b"".join(x for _, x in segs)
+        yield "sweep-base", payload, ("sweep", bname, -1, 0)
+        off = 0
+        for name, seg in segs:
+            dense = name in ("PSBlock", "PSBlockNew") or len(seg) <= 8
+            for i in range(len(seg)):
+                if not dense and (i + off) % stride:
+                    continue
+                for val in SWEEP_VALUES:
+                    if seg[i] == val:
+                        continue
+                    b = bytearray(payload)
+                    b[off + i] = val
+                    yield "sweep-" + name, bytes(b), ("sweep", bname, off + i, val)
+            if name != "Header":
+                for fill, tag in ((0xFF, -2), (0x00, -3)):
+                    b = bytearray(payload)
+                    b[off:off + len(seg)] = bytes([fill]) * len(seg)
+                    yield "sweep-fill-" + name, bytes(b), ("sweep", bname, off, tag)
+                    # keep the framing (length prefix / terminator), fill the contents only
+                    if name in ("ScratchPad", "TextureEntry", "TextureAnim") and len(seg) > 4:
+                        b = bytearray(payload)
+                        b[off + 4:off + len(seg)] = bytes([fill]) * (len(seg) - 4)
+                        yield "sweep-fill-" + name, bytes(b), ("sweep", bname, off + 4, tag)
+                    if name in ("Text", "MediaURL", "NameValue") and len(seg) > 1:
+                        b = bytearray(payload)
+                        b[off:off + len(seg) - 1] = bytes([fill]) * (len(seg) - 1)
+                        yield "sweep-fill-" + name, bytes(b), ("sweep", bname, off, tag - 2)
+            off += len(seg)
+
+
+_BASELINE = None
+
+
+def sweep_baseline():
+    """sweep points whose re-encoding does not reproduce the payload on the UNCHANGED tree, with the reason class;
+    recorded in corpus/C13/sweep_baseline.json (pre-existing behaviour of the embedded sub-templates / of CPython floats,
+    outside C13); everything else must re-encode exactly"""
+    global _BASELINE
+    if _BASELINE is None:
+        path = os.path.join(VERIF, "corpus", "C13", "sweep_baseline.json")
+        _BASELINE = {}
+        if os.path.exists(path):
+            for base, entries in json.load(open(path)).get("points", {}).items():
+                for key, reason in entries.items():
+                    off, val = key.split(":")
+                    _BASELINE[(base, int(off), int(val))] = reason
+    return _BASELINE
 
 
 # --------------------------------------------------------------------------
@@ -524,14 +645,19 @@ def nan_free(p: bytes, im: Impl) -> bool:
     return ok and "nan" not in repr(canon(v))
 
 
-def check_property(im: Impl, p: bytes, domain: bool):
+def check_property(im: Impl, p: bytes, domain):
     """None, or a dict describing which clause fails on payload p.
+    domain=("sweep", base, offset, value): a byte-built payload: as a mutation, plus the re-encode clause (see below).
     domain=True: p is a well-formed payload: both decoders must accept it, agree field by field (Python ==), agree
     after normalisation, and re-encoding must reproduce p.
     domain=False: p is a mutation: both must fail, or agree (NaN-safe comparison)."""
     okf, vf = im.fast(p)
     okd, vd, trailing = im.decl(p)
-    base = {"payload": p.hex(), "domain": domain}
+    sweep = None
+    if not isinstance(domain, bool):
+        sweep = tuple(domain)
+        domain = False
+    base = {"payload": p.hex(), "domain": list(sweep) if sweep else domain}
     if domain:
         if not okd or trailing:
             return dict(base, clause="template accepts every well-formed payload", **{"class": "decl-rejects-wellformed"},
@@ -564,6 +690,15 @@ def check_property(im: Impl, p: bytes, domain: bool):
                     fast=repr(canon(nf))[:200] if okn else nf, decl=repr(canon(nd))[:200] if okm else nd)
     if domain and not okn:
         return dict(base, clause="normaliser accepts every well-formed payload", **{"class": "normaliser-rejects"}, got=nf)
+    if sweep and not trailing and sweep[1:] not in sweep_baseline() \
+            and not any(unforceable(x) for x in vd.values()):
+        # byte-built payload the template accepts completely (lazy windows parse): re-encoding must reproduce it,
+        # unless this sweep point is recorded as not round-tripping on the unchanged tree
+        oke, q = im.reencode(p)
+        if not oke or q != p:
+            i = next((j for j, (a, c) in enumerate(zip(p, q)) if a != c), min(len(p), len(q))) if oke else -1
+            return dict(base, clause="re-encoding through the template reproduces the payload", **{"class": "reencode-bytes"},
+                        first_difference_at=i, got=q.hex() if oke else q)
     if domain:
         oke, q = im.reencode(p)
         if not oke or q != p:
@@ -796,8 +931,10 @@ def corpus_cases():
     if os.path.isdir(d):
         for fn in sorted(os.listdir(d)):
             if fn.endswith(".json"):
-                for c in json.load(open(os.path.join(d, fn))):
-                    out.append((c.get("kind", "corpus"), bytes.fromhex(c["payload"]), bool(c.get("domain", True))))
+                data = json.load(open(os.path.join(d, fn)))
+                for c in (data if isinstance(data, list) else ()):      # (sweep_baseline.json is a table, not a case list)
+                    dm = c.get("domain", True)
+                    out.append((c.get("kind", "corpus"), bytes.fromhex(c["payload"]), tuple(dm) if isinstance(dm, list) else bool(dm)))
     return out
 
 
@@ -818,6 +955,7 @@ def gen_cases(ctx, im: Impl, gen: Gen):
         yield "wire-empty", wire_payload(flags), True
     yield "wire-nv", wire_payload(256, sections={"nv": b"AttachItemID STRING RW SV abc"}), True
     yield from boundary_cases(ctx, im, gen)
+    yield from sweep_cases(ctx)
     # every flag combination x object kind with generated contents
     per = ctx.pick(1, 4)
     quick_pcodes = ctx.pick(3, 9)
@@ -971,7 +1109,11 @@ def correspond(ctx):
         rule="corpus first; every one of the 2048 section-flag combinations x 9 object kinds (6 named PCodes, 3 without a name) "
              "with minimal contents (exhaustive); hand-made wire-level payloads with empty sections; size boundaries of every framing "
              "(Text/MediaURL of 0,1,2,127,128,254,255,256,257,300,1000,4096 bytes ASCII and multibyte; ScratchPad, NameValue, "
-             "ExtraParams windows around 255/256/65535/65536) and every fixed-width integer field at its min and max; every flag combination x "
+             "ExtraParams windows around 255/256/65535/65536) and every fixed-width integer field at its min and max; a byte-level sweep "
+             "inside every section of three hand-built rich payloads (each byte of the particle blocks, every 4th byte elsewhere in "
+             "quick / all in thorough, set to 00,01,7F,80,FB..FF; all-ones and all-zero section contents), where re-encoding must "
+             "reproduce the bytes unless the point is listed in corpus/C13/sweep_baseline.json (18 points that do not round-trip on "
+             "the unchanged tree: signalling-NaN floats, TextureEntry rotation 0x8000); every flag combination x "
              "%d object kinds x %d generated section contents serialised through the real TEMPLATE; seeded mutations (truncate, "
              "flag-bit flip, append, delete, byte edits) and every prefix of rich payloads.  Each case: real fast read vs real "
              "template read field by field (== and NaN-safe canonical form), both through normalize_object_update_compressed_data, "
@@ -994,6 +1136,8 @@ def correspond(ctx):
     lines, slot = [], {}
     for i, (kind, p, _) in enumerate(cases):
         if kind == "exh-minimal" and not ctx.thorough and (i % 3):
+            continue
+        if kind.startswith("sweep-") and not ctx.thorough and (i % 2):
             continue
         body = " ".join(map(str, p))
         slot[i] = len(lines)
@@ -1093,7 +1237,8 @@ def search(ctx, hints):
         d = h.get("disagreement") or h.get("impl_violation")
         if d and "payload" in d:
             p = bytes.fromhex(d["payload"])
-            for domain in (True, False):
+            dm = d.get("domain")
+            for domain in ((tuple(dm),) if isinstance(dm, (list, tuple)) else (True, False)):
                 v = check_property(im, p, domain)
                 if fresh(v):
                     return shrink(im, v)
@@ -1108,5 +1253,6 @@ def search(ctx, hints):
 
 def replay(ctx, case):
     im = impl()
-    v = check_property(im, bytes.fromhex(case["payload"]), bool(case.get("domain", True)))
+    dm = case.get("domain", True)
+    v = check_property(im, bytes.fromhex(case["payload"]), tuple(dm) if isinstance(dm, (list, tuple)) else bool(dm))
     return (v is not None), (v or "holds")
